@@ -89,16 +89,27 @@ func isBytesBuffer(rs *Resid, name string) bool {
 	return found
 }
 
-var verbRe = regexp.MustCompile(`%(#v|v|d|s|q|t)`)
+var verbRe = regexp.MustCompile(`%(\[\d+\])?(#v|v|d|s|q|t)`)
+var verbIndexRe = regexp.MustCompile(`^%\[(\d+)\]`)
 
 // renderStage2 replaces the verbs of one format string by placeholders, given the iteration number of the enclosing loop.
 func renderStage2(rs *Resid, format string, args []ast.Expr, iter int) (string, []string) {
 	var notes []string
 	i := 0
+	used := map[int]bool{}
+	indexed := false
 	out := verbRe.ReplaceAllStringFunc(format, func(v string) string {
+		// an explicit argument index %[n]v selects the n-th operand (and the following verbs continue from there)
+		if m := verbIndexRe.FindStringSubmatch(v); m != nil {
+			n, _ := strconv.Atoi(m[1])
+			i = n - 1
+			indexed = true
+			v = "%" + v[len(m[0]):]
+		}
 		var a ast.Expr
-		if i < len(args) {
+		if i >= 0 && i < len(args) {
 			a = args[i]
+			used[i] = true
 		}
 		i++
 		switch v {
@@ -118,6 +129,15 @@ func renderStage2(rs *Resid, format string, args []ast.Expr, iter int) (string, 
 			return "VALUE"
 		}
 	})
+	if indexed {
+		// with explicit indexes every operand must be used by some verb
+		i = len(args)
+		for k := range args {
+			if !used[k] {
+				i = k
+			}
+		}
+	}
 	if i != len(args) {
 		notes = append(notes, fmt.Sprintf("format %q has %d verbs for %d operands", format, i, len(args)))
 	}
